@@ -93,8 +93,11 @@ def run_case(case, rng):
     if rng.random() < 0.12:
         cap_kw["max_lao_star_iterations"] = rng.choice([1, 2, 5])
     case.params.update(cap_kw)
-    planner = LAOStar(heuristic=hfun, randomize_action_order=rao,
-                      randomize_nextstate_order=rno, event_listener_class=Probe, seed=seed, **cap_kw)
+    from mon import defaults as Dflt
+    lkw, _om = Dflt.rely_on_defaults(case, rng, "LAOStar", dict(randomize_action_order=rao, randomize_nextstate_order=rno,
+                                                                event_listener_class=Probe, seed=seed, **cap_kw))
+    planner = LAOStar(heuristic=hfun, **lkw)
+    Dflt.in_force(case, "LAOStar", planner, passed=lkw)        # the budgets left at their defaults, too
     if rng.random() < 0.25:
         # the same planner object first plans on a sibling problem over the same labels with one more absorbing
         # state; nothing of that run may leak into the judged one
